@@ -99,13 +99,48 @@ CLAUSES = [
                    "convert_to_tensor_frame(df2)"]),
 ]
 
+# Every raise / assert / try-except / special-case branch / dtype cast of the anchored code (mapper.py embedder and
+# tokenizer mappers, config/image_embedder.py, dataset.py _get_mapper / config canonicalisation), the generator kind that
+# reaches it (required by sanity() unless marked n/a) and the oracle key that notices if it is removed, loosened or made
+# to return a default.
+ERROR_PATHS = [
+    ("mapper.py: ser_list = [str(x) for x in ser.tolist()]  (cast of every cell to str)",
+     "missing kinds x dtypes object/str/string/category", "nonstr-arg:*, calls:*"),
+    ("mapper.py: self.batch_size is None -> single call | else range/slice loop", "bs=None, bs=1, n-1, n, n+1",
+     "calls:*:batched|unbatched"),
+    ("mapper.py: isinstance(tokenized_outputs, Mapping) (unbatched and batched)", "map_kind dict/userdict/proxy/custom x "
+     "list/dict format", "raises:text_tokenized:*, rows:text_tokenized:*"),
+    ("mapper.py: assert tensors.ndim == 2 / tensor.ndim == 1", "n/a: malformed tokenizer output is outside the property "
+     "(callables are deterministic row-wise stubs)", "-"),
+    ("mapper.py: emb.to(device), MultiEmbeddingTensor(...).to(device), tensor.to(device)",
+     "device omitted/None/torch.device/'cpu' x embedder dtypes float32/float64/int64/float16", "dtype:*, rows:*"),
+    ("mapper.py: torch.cat(emb_list, dim=0) (raises on an empty list / mismatching widths)", "n/a: n >= 1 and row-wise "
+     "stubs; empty column raises in every branch (Props/C16.v c16_ex_empty_column_raises)", "-"),
+    ("mapper.py: len(values[0]) (IndexError on an empty tensor)", "n/a: n >= 1", "-"),
+    ("mapper.py: no clean-up of the embedder output (NaN / inf must arrive unchanged)",
+     "nonfinite:nan|inf|-inf x batched/unbatched x float32/float64/float16", "rows:* (NaN-aware exact comparison)"),
+    ("mapper.py: embedder is None -> np.stack(ser.values).astype(dtype)", "n/a: plain `embedding` stype, property C01", "-"),
+    ("image_embedder.py: Image.open(path) raises for a missing / unreadable / non-image path (no try/except)",
+     "unopenable: nonexistent / directory / nonimage / missing cell at first / middle / last row",
+     "no-raise:unopenable-image:<kind>, result-unreadable"),
+    ("image_embedder.py: image.convert('RGB')", "non_rgb_file (grey-scale and RGBA PNGs)", "image-mode, image-embed-args"),
+    ("image_embedder.py: one image per path, duplicates included", "real_images repeated/*", "image-embed-args, image-embed-calls"),
+    ("dataset.py _get_mapper: config looked up by column name, one mapper per column and call",
+     "one_config / one_callable / distinct_callables x equal_bs / none_vs_k / k_vs_k2; histories", "calls:*, *:reuse"),
+    ("dataset.py canonicalize_col_to_pattern: single config broadcast | dict; ValueError for a missing column; "
+     "TypeError for a value that is not a Config", "shared (single config) and per-column dicts; the two raises are n/a "
+     "(a frame without a config for a text column is not in the quantifier)", "calls:*, column-missing:*"),
+    ("dataset.py _merge_feat: text_embedded / image_embedded merged into the embedding stype",
+     "text_embedded + image_embedded columns in one frame", "column-missing:*, rows:*"),
+]
+
 STYPES = ["text_embedded", "image_embedded", "text_tokenized"]
 FAMILY = {"text_embedded": "col_to_text_embedder_cfg", "image_embedded": "col_to_image_embedder_cfg",
           "text_tokenized": "col_to_text_tokenizer_cfg"}
 TOK_KEYS = ["input_ids", "attention_mask", "token_type_ids"]
 TOK_VARIANTS = [("list", "none"), ("list", "fixed"), ("dict", "batch"), ("dict", "fixed")]
 ALPHABET = ["a", "b", "Z", "0", " ", "|", ",", "é", "漢", "\"", "'", "\\", "\t", "\n", "-", "(*", "%"]
-SPECIAL = ["", " ", "nan", "None", "NaN", "<NA>", "none", "0", "1.5", "a b", "x|y"]
+SPECIAL = ["", " ", "nan", "None", "NaN", "<NA>", "none", "0", "1.5", "a b", "x|y", "inf", "-inf", "inf", "nan"]
 FIXED_LEN = 5
 
 
@@ -151,11 +186,23 @@ def emb_vals(s, w, dt):
     """Deterministic output row of the stub embedders for one string.  float64 / int64 values are NOT representable
     in float32, so any silent down-cast on the way into the frame is visible."""
     base = D.hash_vec(s, w)                    # k/8 with 0 <= k < 64
-    if dt == "float64":
-        return [(2 ** 40 + 1) + 0.1 + v for v in base]
     if dt == "int64":
         return [2 ** 40 + 1 + int(v * 8) for v in base]
-    return list(base)                          # exact in float32 and float16
+    row = [(2 ** 40 + 1) + 0.1 + v for v in base] if dt == "float64" else list(base)   # exact in float32 / float16
+    # a user embedder may legitimately return non-finite values: the frame must hold exactly what it returned
+    # ('nan' is also the rendering of most missing cells)
+    nf = NONFINITE.get(s)
+    if nf is not None:
+        row[0] = nf
+    return row
+
+
+NONFINITE = {"nan": float("nan"), "inf": float("inf"), "-inf": float("-inf")}
+
+
+def jrow(row):
+    """A row of floats in the JSON form the frames are read in (NaN -> None, inf -> 'inf')."""
+    return [D.fnum(float(x)) if isinstance(x, float) else x for x in row]
 
 
 class TextEmbedderStub:
@@ -201,10 +248,22 @@ def img_dir():
         d = tempfile.mkdtemp(prefix="c16_img_")
         atexit.register(shutil.rmtree, d, True)
         for k in range(N_IMAGES):
-            PILImage.new("RGB", (2, 2), (10 * k + 5, 200 - 7 * k, k)).save(os.path.join(d, f"img{k}.png"))
+            # files 4 and 5 are not RGB on disk (grey-scale, RGBA): retrieval must hand over RGB images
+            if k == 4:
+                im = PILImage.new("L", (2, 2), k)
+            elif k == 5:
+                im = PILImage.new("RGBA", (2, 2), (10 * k + 5, 200 - 7 * k, k, 255))
+            else:
+                im = PILImage.new("RGB", (2, 2), (10 * k + 5, 200 - 7 * k, k))
+            im.save(os.path.join(d, f"img{k}.png"))
+        with open(os.path.join(d, "notimg.txt"), "w") as f:
+            f.write("this is not an image")
+        os.mkdir(os.path.join(d, "adir.png"))
         _IMG_DIR[0] = d
     return _IMG_DIR[0]
 
+
+UNOPENABLE = {"nonexistent": "nofile.png", "directory": "adir.png", "nonimage": "notimg.txt", "missing": None}
 
 def img_id(path):
     return int(os.path.basename(path)[3:-4])
@@ -222,14 +281,15 @@ class RealImageEmbedderStub(ImageEmbedderStub):
 
     def __init__(self, w, dt="float32"):
         super().__init__(w, dt)
-        self.embed_ids = []
+        self.embed_ids, self.modes = [], []
 
     def forward_retrieve(self, path_to_images):
         self.calls.append(record(path_to_images))
         return ImageEmbedder.forward_retrieve(self, path_to_images)
 
     def forward_embed(self, images):
-        ids = [im.getpixel((0, 0))[2] for im in images]
+        self.modes.extend(im.mode for im in images)
+        ids = [im.convert("RGB").getpixel((0, 0))[2] for im in images]
         self.embed_sizes.append(len(images))
         self.embed_ids.append(ids)
         return torch.tensor([img_vals(k, self.w) for k in ids], dtype=EMB_DTYPES[self.dt]).reshape(len(ids), self.w)
@@ -422,6 +482,13 @@ def gen_case(rng):
             c["callable_form"] = "object"       # must stay the ImageEmbedder subclass instance
             pool = rng.sample(range(N_IMAGES), rng.randint(1, 3))
             c["cells"] = [f"img{rng.pick(pool)}.png" for _ in range(n)]
+            if rng.chance(0.3):
+                # one cell that cannot be opened as an image: the conversion must RAISE (dropping the row silently
+                # would break "every row exactly once"); first / middle / last position
+                kind = rng.pick(sorted(UNOPENABLE))
+                pos = rng.pick(sorted({0, n // 2, n - 1}))
+                c["cells"][pos] = UNOPENABLE[kind]
+                c["bad_cell"] = {"kind": kind, "pos": pos}
     if via == "dataset":
         # the embedded columns of one frame are concatenated into one container: one output dtype for all of them
         embs = [c for c in cols if c["stype"] != "text_tokenized"]
@@ -433,7 +500,7 @@ def gen_case(rng):
     # history: the SAME mapper objects (via mapper) / the dataset's converter (via dataset) are applied to further
     # DataFrames of other lengths; each result must be what a fresh mapper gives
     case["more"] = []
-    for _ in range(rng.wpick([(5, 0), (3, 1), (2, 2)])):
+    for _ in range(0 if any(c.get("bad_cell") for c in cols) else rng.wpick([(5, 0), (3, 1), (2, 2)])):
         m = rng.randint(1, 7)
         case["more"].append({"n": m, "index": rng.pick(["range", "offset", "dup"]),
                              "cells": {c["name"]: ([f"img{rng.randint(0, 2)}.png" for _ in range(m)]
@@ -527,6 +594,7 @@ def read_stub(stub, mark=(0, 0)):
         o["embed_sizes"] = list(stub.embed_sizes[mark[1]:])
     if isinstance(stub, RealImageEmbedderStub):
         o["embed_ids"] = list(stub.embed_ids[mark[1]:])
+        o["modes"] = sorted(set(stub.modes))
     return o
 
 
@@ -572,17 +640,23 @@ def run(case):
                 stub = stubs[col["name"]]
                 mark = stub_mark(stub)
                 rec = {}
+                out = None
                 try:
                     out = mappers[col["name"]].forward(df[col["name"]], **device_kw(case))
-                    if col["stype"] == "text_tokenized":
+                except Exception as ex:
+                    rec["exc"] = C.exc_name(ex)
+                    rec["msg"] = str(ex)[:200]
+                try:                        # reading the result is a separate matter from producing it
+                    if out is None:
+                        pass
+                    elif col["stype"] == "text_tokenized":
                         rec["rows"] = {k: [r[0] for r in D.read_feat(x)] for k, x in out.items()}
                     else:
                         rec["rows"] = [r[0] for r in D.read_feat(out)]
                         rec["num_rows"] = out.num_rows
                         rec["dtype"] = str(out.values.dtype).replace("torch.", "")
                 except Exception as ex:
-                    rec["exc"] = C.exc_name(ex)
-                    rec["msg"] = str(ex)[:200]
+                    rec["read_exc"] = f"{C.exc_name(ex)}: {str(ex)[:160]}"
                 rec.update(read_stub(stub, mark))
                 o["cols"][col["name"]] = rec
             frames.append(o)
@@ -610,7 +684,7 @@ def run(case):
             df = build_df(v)
             o = {"cols": {}}
             marks = {name: stub_mark(st_) for name, st_ in stubs.items()}
-            tfj = None
+            tfj, tf, edt = None, None, None
             try:
                 if k == 0:
                     ds = Dataset(df, col_to_stype, **kw)
@@ -626,12 +700,18 @@ def run(case):
                         tf = ds.convert_to_tensor_frame(df, dk["device"])
                     else:
                         tf = ds.convert_to_tensor_frame(df, **dk)
-                tfj = D.read_tf(tf)
-                emb = tf.feat_dict.get(torch_frame.embedding)
-                edt = None if emb is None else str(emb.values.dtype).replace("torch.", "")
             except Exception as ex:
                 o["exc"] = C.exc_name(ex)
                 o["msg"] = str(ex)[:200]
+                tf = None
+            if tf is not None:
+                try:                        # reading the result is a separate matter from producing it
+                    tfj = D.read_tf(tf)
+                    emb = tf.feat_dict.get(torch_frame.embedding)
+                    edt = None if emb is None else str(emb.values.dtype).replace("torch.", "")
+                except Exception as ex:
+                    o["read_exc"] = f"{C.exc_name(ex)}: {str(ex)[:160]}"
+                    tfj = None
             for col in v["cols"]:
                 rec = read_stub(stubs[col["name"]], marks[col["name"]])
                 if tfj is not None:
@@ -677,7 +757,7 @@ def expected_rows(col, chunks):
         keys = TOK_KEYS[:col["nkeys"]]
         rows = [r for ch in chunks for r in tok_rows(tuple(col["tok"]), col["nkeys"], ch)]
         return {k: [r[k] for r in rows] for k in keys}
-    return [row_vals(col, s) for ch in chunks for s in ch]
+    return [jrow(row_vals(col, s)) for ch in chunks for s in ch]
 
 
 def row_vals(col, s):
@@ -776,6 +856,24 @@ def oracle_frame(case, obs):
             if bad:
                 return dict(key=f"nonstr-arg:{st}", what=f"the {st} callable of column {col['name']!r} received a "
                             f"{bad[0]['nonstr']} ({bad[0]['repr']}) instead of a string", observed=call)
+    # a real-image column with a cell that cannot be opened: the clean behaviour class is "raises"
+    bad = [c for c in case["cols"] if c.get("bad_cell")]
+    if bad:
+        raised = "exc" in obs or all("exc" in obs["cols"][c["name"]] for c in bad)
+        if raised:
+            return None
+        c = bad[0]
+        rec = obs["cols"][c["name"]]
+        return dict(key=f"no-raise:unopenable-image:{c['bad_cell']['kind']}",
+                    what=f"column {c['name']!r} holds a cell that cannot be opened as an image ({c['bad_cell']['kind']}, "
+                         f"row {c['bad_cell']['pos']}) but the conversion returned: {rec.get('num_rows')} rows for "
+                         f"{case['n']} cells, forward_embed saw {rec.get('embed_sizes')} images",
+                    observed=rec.get("rows"))
+    rx = obs.get("read_exc") or next((obs["cols"][c["name"]]["read_exc"] for c in case["cols"]
+                                      if "read_exc" in obs["cols"][c["name"]]), None)
+    if rx:
+        return dict(key="result-unreadable", what=f"the conversion returned a frame whose cells cannot be read ({rx}): "
+                                                  f"the result is ill-formed")
     if "exc" in obs:
         # the conversion of the whole frame raised: columns processed later were never reached, so attribute the
         # raise to the column whose callable was served completely (its assembly failed), else to the first one
@@ -797,6 +895,9 @@ def oracle_frame(case, obs):
             return dict(key=f"calls:{tag}", what=f"the {st} callable of column {col['name']!r} (batch_size="
                         f"{col['batch_size']}) was not called with the consecutive chunks of the rendered column",
                         expected=want, observed=got_elems if got_elems is not None else rec["calls"])
+        if col.get("real_images") and rec.get("modes") not in (None, [], ["RGB"]):
+            return dict(key="image-mode", what=f"forward_embed of column {col['name']!r} received images in modes "
+                                               f"{rec['modes']}, not RGB")
         if col.get("real_images"):
             want_ids = [[img_id(x) for x in w] for w in want]
             if rec.get("embed_ids") != want_ids:
@@ -847,12 +948,14 @@ def shrink(case):
         yield dict(case, extra_num=False)
     if case["index"] != "range":
         yield dict(case, index="range")
-    if case["n"] > 1:
+    if case["n"] > 1 and not any(c.get("bad_cell") for c in cols):
         for r in range(case["n"]):
             yield dict(case, n=case["n"] - 1, cols=[dict(c, cells=c["cells"][:r] + c["cells"][r + 1:]) for c in cols])
     for k, c in enumerate(cols):
         for r, v in enumerate(c["cells"]):
             simple = "img0.png" if c.get("real_images") else "a"
+            if c.get("bad_cell") and r == c["bad_cell"]["pos"]:
+                continue
             if v not in (None, simple) and not (c.get("real_images") and simple in c["cells"]):
                 yield dict(case, cols=cols[:k] + [dict(c, cells=c["cells"][:r] + [simple] + c["cells"][r + 1:])] + cols[k + 1:])
         if c["stype"] == "text_tokenized" and c["nkeys"] > 1:
@@ -921,6 +1024,17 @@ def stats(cases, obss):
                 hit("bs=None")
             if b_ and n_ > b_ and n_ % b_ == 1:
                 hit("last_chunk_of_1")
+            if col.get("bad_cell"):
+                bc = col["bad_cell"]
+                where = "first" if bc["pos"] == 0 else "last" if bc["pos"] == n_ - 1 else "middle"
+                hit(f"unopenable:{bc['kind']}")
+                hit(f"unopenable@{where}")
+            if col["stype"] != "text_tokenized" and not col.get("real_images") and col.get("emb_dtype") != "int64":
+                for sv in set(rendered(col)) & set(NONFINITE):
+                    hit(f"nonfinite:{sv}:" + ("unbatched" if b_ is None else "batched"))
+                    hit(f"nonfinite:{col.get('emb_dtype', 'float32')}")
+            if col.get("real_images") and any(x in ("img4.png", "img5.png") for x in col["cells"] if x):
+                hit("non_rgb_file")
             cs = col["cells"]
             if all(v is None for v in cs):
                 hit("all_missing")
@@ -1008,6 +1122,13 @@ def sanity(cases, obss):
               "distinct_callables:k_vs_k2"):
         if not d.get("boundary", {}).get(k):
             probs.append(f"boundary {k} never drawn")
+    nf = [f"nonfinite:{v}:{m}" for v in NONFINITE for m in ("batched", "unbatched")] + \
+         [f"nonfinite:{dt}" for dt in ("float32", "float64", "float16")]
+    unop = ([f"unopenable:{k}" for k in UNOPENABLE] + [f"unopenable@{w}" for w in ("first", "middle", "last")] +
+            ["non_rgb_file"]) if HAVE_PIL else []
+    for k in nf + unop:
+        if not d.get("boundary", {}).get(k):
+            probs.append(f"error path / representation {k} never drawn")
     if not d["dtype"].get("category"):
         probs.append("dtype category never drawn")
     import inspect
@@ -1063,8 +1184,16 @@ def cstr(s):
 def cvec(v, scale=1):
     out = []
     for x in v:
-        y = None if x is None or isinstance(x, str) else x * scale
-        # a value the stubs cannot have produced (NaN, inf, non-dyadic) is shipped as a marker
+        if isinstance(x, float) and x != x:
+            x = None
+        if x in ("inf", "-inf") or (isinstance(x, float) and x in (float("inf"), float("-inf"))):
+            out.append("(-424243)%Z" if x in ("inf", float("inf")) else "(-424244)%Z")      # +inf / -inf
+            continue
+        if x is None:
+            out.append("(-424245)%Z")                                                          # NaN
+            continue
+        y = None if isinstance(x, str) else x * scale
+        # a value the stubs cannot have produced (non-dyadic) is shipped as a marker
         out.append(C.cz(int(y)) if y is not None and y == int(y) else "(-424242)%Z")
     return "[" + "; ".join(out) + "]"
 
@@ -1103,6 +1232,8 @@ def coq_term(case, obs):
     if "cols" not in obs:
         return None
     # the model is stateless: every frame of a history is an independent evaluation ("equals a fresh mapper")
+    if any(c.get("bad_cell") for c in case["cols"]):
+        return None          # a raising retrieval is outside the (total) callable of the model; judged by the oracle
     parts = []
     for v, o in zip(views(case), [obs] + list(obs.get("more", []))):
         parts.append(coq_term_frame(v, o))
